@@ -15,7 +15,8 @@ def _nontrivial(sc, res):
                                   for t in sc['tasks'])
 
 
-gen, run = S.make_check(PROP, ['full', 'full', 'sched', 'nodelist'], KNOBS, _nontrivial)
+gen, run = S.make_check(PROP, ['full', 'full', 'sched', 'nodelist', 'jsrun'], KNOBS,
+                        _nontrivial)
 shrink = S.shrink
 SEEDS  = {'quick': 1200, 'thorough': 40000}
 BUDGET = {'quick': 240, 'thorough': 3000}
